@@ -49,6 +49,11 @@ def _patch(script):
     asceprovider.time = _NoSleep
 
 
+def KMAX():
+    """number of DIMSE exchanges before the ending: 0..2 in the quick tier, 0..5 in the thorough tier"""
+    return 5 if tier() == 'thorough' else 2
+
+
 class Svc(object):
     sop_classes = [VERIF_SOP]
 
@@ -149,14 +154,14 @@ def requestor_sees_rejection(result: int, source: int, reason: int) -> bool:
 # leaving a requested association
 # ------------------------------------------------------------------------------------------------
 
-@cond(bounds='requestor context manager: k = 0..2 DIMSE exchanges in the body (symbolic), then the body ends normally '
+@cond(bounds='requestor context manager: k = 0..2 (thorough: 0..5) DIMSE exchanges in the body (symbolic), then the body ends normally '
              'or raises an application exception at a symbolic point (before / between / after exchanges)', timeout=120)
 def leave_release_or_abort(k: int, fails: bool, at: int) -> bool:
     """
-    pre: 0 <= k <= 2 and 0 <= at <= k
+    pre: 0 <= k <= KMAX() and 0 <= at <= k
     post: _
     """
-    k, at = pick(k, 0, 2), pick(at, 0, 2)
+    k, at = pick(k, 0, KMAX()), pick(at, 0, KMAX())
     svc = Svc()
     ae = client_ae(svc)
     _patch([ac_reply()] + [(Msg(), 1)] * k + [pdu.AReleaseRpPDU()])
@@ -189,15 +194,15 @@ def leave_release_or_abort(k: int, fails: bool, at: int) -> bool:
 # abort / release by the peer
 # ------------------------------------------------------------------------------------------------
 
-@cond(bounds='requestor: after p = 0..2 DIMSE exchanges (symbolic) the peer sends A-ABORT with (source, reason) each '
+@cond(bounds='requestor: after p = 0..2 (thorough: 0..5) DIMSE exchanges (symbolic) the peer sends A-ABORT with (source, reason) each '
              'symbolic 0..255, or A-RELEASE-RQ (symbolic choice): the corresponding error surfaces from receive() with '
              'the fields preserved', timeout=120)
 def peer_ends_requestor(p: int, source: int, reason: int, release: bool) -> bool:
     """
-    pre: 0 <= p <= 2 and 0 <= source <= 255 and 0 <= reason <= 255
+    pre: 0 <= p <= KMAX() and 0 <= source <= 255 and 0 <= reason <= 255
     post: _
     """
-    p = pick(p, 0, 2)
+    p = pick(p, 0, KMAX())
     svc = Svc()
     ae = client_ae(svc)
     ab = pdu.AAbortPDU.decode(bytes([7, 0, 0, 0, 0, 4, 0, 0, source, reason]))
@@ -206,7 +211,7 @@ def peer_ends_requestor(p: int, source: int, reason: int, release: bool) -> bool
     got = 0
     try:
         with ae.request_association(REMOTE) as assoc:
-            for i in range(3):
+            for i in range(KMAX() + 1):
                 assoc.receive()
                 got += 1
     except exceptions.AssociationAbortedError as e:
@@ -222,15 +227,15 @@ def peer_ends_requestor(p: int, source: int, reason: int, release: bool) -> bool
     return ok
 
 
-@cond(bounds='acceptor: after p = 0..2 served DIMSE messages (symbolic) the peer sends A-RELEASE-RQ, A-ABORT with '
+@cond(bounds='acceptor: after p = 0..2 (thorough: 0..5) served DIMSE messages (symbolic) the peer sends A-RELEASE-RQ, A-ABORT with '
              'symbolic (source, reason), or goes silent (time-out) - symbolic choice: release is answered with exactly '
              'one A-RELEASE-RP, abort and time-out with nothing; services ran exactly p times', timeout=120)
 def peer_ends_acceptor(p: int, how: int, source: int, reason: int) -> bool:
     """
-    pre: 0 <= p <= 2 and 0 <= how <= 2 and 0 <= source <= 255 and 0 <= reason <= 255
+    pre: 0 <= p <= KMAX() and 0 <= how <= 2 and 0 <= source <= 255 and 0 <= reason <= 255
     post: _
     """
-    p, how = pick(p, 0, 2), pick(how, 0, 2)
+    p, how = pick(p, 0, KMAX()), pick(how, 0, 2)
     svc = Svc()
     ae = A.StubAE('SCP', supported_ts=[TS], supported_scp={VERIF_SOP: svc})
     rq = pdu.AAssociateRqPDU('SCP', 'SCU', [pdu.ApplicationContextItem(A.APP_CTX),
